@@ -363,15 +363,16 @@ class CommonRD:
         else:
             proxy_host = None
 
-        # No more errors should fly out from below here, as side effects start now
+        # Errors may still fly out of the Registration constructor below
+        # (parameter validation); side effects start only after it
 
         try:
             oldreg = self._by_key[key]
         except KeyError:
+            oldreg = None
             path = self._new_pathtail()
         else:
             path = oldreg.path[len(self.entity_prefix) :]
-            oldreg.delete()
 
         # this was the brutal way towards idempotency (delete and re-create).
         # if any actions based on that are implemented here, they have yet to
@@ -397,6 +398,13 @@ class CommonRD:
             proxy_host,
             setproxyremote,
         )
+
+        if oldreg is not None:
+            # Only now that the new registration's parameters were accepted,
+            # the old one is replaced
+            oldreg.delete()
+            if proxy_host is not None:
+                setproxyremote(network_remote)
 
         self._by_key[key] = reg
         self._by_path[path] = reg
